@@ -2,6 +2,7 @@
 import Y0.Model.Graph
 import Y0.Model.Expr
 import Y0.Model.Cg
+import Y0.Model.IdStar
 import Y0.Driver.Graph
 
 namespace Y0.Driver
@@ -51,6 +52,15 @@ def handleCf (op : String) (args : List Sexp) : Option Sexp := do
       let rs ← strategies.mapM fun s => match s with
         | .list [rev, rot] => do
             pure (cgResultToSexp (makeCounterfactualGraph (orderWorlds (← boolOf? rev) (← asNat? rot)) G e))
+        | _ => none
+      pure (tagged "ok" rs)
+  | "id_star_all", [g, ev, .list strategies] => do
+      let G ← parseGraph g
+      let e ← eventOf? ev
+      let rs ← strategies.mapM fun s => match s with
+        | .list [rev, rot, drev] => do
+            pure (exceptToSexp Codec.exprToSexp
+              (idStar (orderWorlds (← boolOf? rev) (← asNat? rot)) (orderDistrict (← boolOf? drev)) G e))
         | _ => none
       pure (tagged "ok" rs)
   | "pw_graph", [g, ev] =>
